@@ -1585,7 +1585,32 @@ def policy(repo, tier):
     return {"obligations": obls, "functions": fns}
 
 
-EXTRA = [policy]
+def view_validation(repo, tier):
+    """BOUNDED / validation only (never counted as discharged): the ASSUMED library views are compared with the installed
+    libraries by replay/C08.py::validate_views under /venv/bin/python.  A disagreement means a contract model is stale:
+    UNDECIDED (definite=False), not a violation of the library under test."""
+    import json
+    import os
+    import subprocess
+    root = os.path.dirname(os.path.dirname(os.path.abspath(__file__)))
+    try:
+        p = subprocess.run(["/venv/bin/python", os.path.join(root, "replay", "run.py")], input=json.dumps({"property": "C08", "validate_views": True, "repo": repo}),
+                           capture_output=True, text=True, timeout=300, env=dict(os.environ, VERIF_REPO=repo))
+        facts = json.loads([l for l in p.stdout.splitlines() if l.startswith("{")][-1]).get("facts", [])
+    except Exception as e:  # noqa
+        facts = [{"fact": "validator-ran", "ok": False, "detail": str(e)[:200]}]
+    obls = []
+    for f in facts:
+        o = ground_obligation(f"C08/assumed-views::{f['fact']}/validation#agrees-with-the-installed-library", f["ok"], f["detail"], "replay/C08.py",
+                              kind="validation", backend="native", definite=False)
+        o["bounded"] = True
+        if f["ok"]:
+            o["status"] = "bounded-ok"
+        obls.append(o)
+    return {"obligations": obls, "functions": []}
+
+
+EXTRA = [policy, view_validation]
 
 
 def bounded_chain_check():
